@@ -557,6 +557,8 @@ fn e_backend_trunc(code: u32, size: usize, cut: usize) {
     let ap: u64 = kani::any();
     let b0: u64 = kani::any();
     let b1: u64 = kani::any();
+    let nfds: usize = kani::any();
+    kani::assume(nfds <= 2);
     let mut h = mk_handler(v, av, ap);
     // SAFETY: single-threaded harness, ghost state is plain data
     unsafe {
@@ -565,7 +567,7 @@ fn e_backend_trunc(code: u32, size: usize, cut: usize) {
         g::put64(20, b1);
         g::G.rx_len = cut;
         g::G.rx_closed = true; // the peer closes after `cut` bytes
-        g::G.rx_nfds = 0;
+        g::G.rx_nfds = nfds; // 0..=2 descriptors ride on the first byte (if there is one)
         g::G.rx_fd_call = 1;
     }
     Rec::script();
@@ -581,6 +583,8 @@ fn e_backend_trunc(code: u32, size: usize, cut: usize) {
     unsafe {
         assert!(!g::G.blocked, "C08: must not block on a closed stream");
         assert!(g::G.tx_len == 0, "C08: nothing is written for a partial request");
+        assert!(!g::G.double_close, "C09: double close");
+        assert!(g::G.fd_state[0] != g::FD_OPEN && g::G.fd_state[1] != g::FD_OPEN, "C09: descriptors that arrived with a request cut short by the end of the stream are closed by the library");
     }
     std::mem::forget(res);
 }
@@ -598,17 +602,17 @@ macro_rules! e_bt {
         }
     };
 }
-// @harness props=C08 tier=quick reach=off timeout=400 bound="handle_request: SET_VRING_NUM (8-byte body), stream ends at offset 0 (message boundary); body and negotiation words symbolic" stubs="vmm-sys-util raw_recvmsg/raw_sendmsg (ghost stream socket), libc::close + OwnedFd::drop, handle_alloc_error"
+// @harness props=C08,C09 tier=quick reach=off timeout=400 bound="handle_request: SET_VRING_NUM (8-byte body), stream ends at offset 0 (message boundary); body and negotiation words symbolic; 0..=2 descriptors attached to the first byte" stubs="vmm-sys-util raw_recvmsg/raw_sendmsg (ghost stream socket), libc::close + OwnedFd::drop, handle_alloc_error"
 e_bt!(c08_e_request_cut_0, 8, 8, 0);
-// @harness props=C08 tier=quick reach=off timeout=400 bound="handle_request: SET_VRING_NUM (8-byte body), stream ends at offset 7 (inside the header); body and negotiation words symbolic" stubs="vmm-sys-util raw_recvmsg/raw_sendmsg (ghost stream socket), libc::close + OwnedFd::drop, handle_alloc_error"
+// @harness props=C08,C09 tier=quick reach=off timeout=400 bound="handle_request: SET_VRING_NUM (8-byte body), stream ends at offset 7 (inside the header); body and negotiation words symbolic; 0..=2 descriptors attached to the first byte" stubs="vmm-sys-util raw_recvmsg/raw_sendmsg (ghost stream socket), libc::close + OwnedFd::drop, handle_alloc_error"
 e_bt!(c08_e_request_cut_7, 8, 8, 7);
-// @harness props=C08 tier=quick reach=off timeout=400 bound="handle_request: SET_VRING_NUM (8-byte body), stream ends at offset 12 (right after the header); body and negotiation words symbolic" stubs="vmm-sys-util raw_recvmsg/raw_sendmsg (ghost stream socket), libc::close + OwnedFd::drop, handle_alloc_error"
+// @harness props=C08,C09 tier=quick reach=off timeout=400 bound="handle_request: SET_VRING_NUM (8-byte body), stream ends at offset 12 (right after the header); body and negotiation words symbolic; 0..=2 descriptors attached to the first byte" stubs="vmm-sys-util raw_recvmsg/raw_sendmsg (ghost stream socket), libc::close + OwnedFd::drop, handle_alloc_error"
 e_bt!(c08_e_request_cut_12, 8, 8, 12);
-// @harness props=C08 tier=quick reach=off timeout=400 bound="handle_request: SET_VRING_NUM (8-byte body), stream ends at offset 19 (one byte short); body and negotiation words symbolic" stubs="vmm-sys-util raw_recvmsg/raw_sendmsg (ghost stream socket), libc::close + OwnedFd::drop, handle_alloc_error"
+// @harness props=C08,C09 tier=quick reach=off timeout=400 bound="handle_request: SET_VRING_NUM (8-byte body), stream ends at offset 19 (one byte short); body and negotiation words symbolic; 0..=2 descriptors attached to the first byte" stubs="vmm-sys-util raw_recvmsg/raw_sendmsg (ghost stream socket), libc::close + OwnedFd::drop, handle_alloc_error"
 e_bt!(c08_e_request_cut_19, 8, 8, 19);
-// @harness props=C08 tier=thorough reach=off timeout=400 bound="handle_request: SET_VRING_ADDR (40-byte body), stream ends at offset 12; body and negotiation words symbolic" stubs="vmm-sys-util raw_recvmsg/raw_sendmsg (ghost stream socket), libc::close + OwnedFd::drop, handle_alloc_error"
+// @harness props=C08,C09 tier=thorough reach=off timeout=400 bound="handle_request: SET_VRING_ADDR (40-byte body), stream ends at offset 12; body and negotiation words symbolic; 0..=2 descriptors attached to the first byte" stubs="vmm-sys-util raw_recvmsg/raw_sendmsg (ghost stream socket), libc::close + OwnedFd::drop, handle_alloc_error"
 e_bt!(c08_e_vring_addr_cut_12, 9, 40, 12);
-// @harness props=C08 tier=thorough reach=off timeout=400 bound="handle_request: SET_FEATURES (8-byte body), stream ends at offset 15; body and negotiation words symbolic" stubs="vmm-sys-util raw_recvmsg/raw_sendmsg (ghost stream socket), libc::close + OwnedFd::drop, handle_alloc_error"
+// @harness props=C08,C09 tier=thorough reach=off timeout=400 bound="handle_request: SET_FEATURES (8-byte body), stream ends at offset 15; body and negotiation words symbolic; 0..=2 descriptors attached to the first byte" stubs="vmm-sys-util raw_recvmsg/raw_sendmsg (ghost stream socket), libc::close + OwnedFd::drop, handle_alloc_error"
 e_bt!(c08_e_set_features_cut_15, 2, 8, 15);
 
 // =============================================================== descriptors in the wrong place (C09)
